@@ -52,6 +52,9 @@ __CPROVER_requires(g_jwk_tracked_bin == NULL && g_push_name_of_tracked == NULL &
 #define ENS_ITEM_RESULT(item) \
 __CPROVER_ensures(ITEM_OK(item) ==> ((item)->provider == JWT_CRYPTO_OPS_OPENSSL && (item)->provider_data != NULL)) \
 __CPROVER_ensures(!ITEM_OK(item) ==> (item)->error_msg[0] != 0) \
+/* C07 / C16: an item that reports an error owns no key object (whoever frees the item later must not find a \
+ * pointer to something the importer has already released) */ \
+__CPROVER_ensures(!ITEM_OK(item) ==> ((item)->provider_data == NULL && (item)->pem == NULL)) \
 __CPROVER_ensures((item)->error_msg[JWT_ERR_LEN - 1] == 0) \
 /* C08 / C09: the size in bits is the one OpenSSL reports for the key it built */ \
 __CPROVER_ensures(ITEM_OK(item) ==> (item)->bits == g_ossl_bits)
